@@ -19,6 +19,7 @@ func rulesC09(c *Ctx) {
 		"R9.2 checkParams' and updateParams' decision tables (status code and ModifyRPCErrorDetails reason per cell; setClientParams/the state write as the only effect of the accepting cell); checkClientsConsistent compares against every other session and only fails inside its loop; clientParams.Equal and DeepCopy cover every field",
 		"R9.3 runElection's decision table: not SINGLE_PRIMARY → FAILED_PRECONDITION/ELECTION_ID_IN_ALL_PRIMARY, zero id → INVALID_ARGUMENT, both without any effect",
 		"R9.4 doModify's precondition table: unknown session → INTERNAL, session without SINGLE_PRIMARY+PRESERVE → UNIMPLEMENTED/UNSUPPORTED_PARAMS, both before any RIB or election access",
+		"R9.9 a fatal error ends the session's processing at once: in doModify a write to the error channel is the last effect of the path and is followed by `return false`, and the receive loop returns on false (in the dispatch table) — no further operation of the request and no further message of the failed session is handled",
 		"R9.6 every exit of Modify after the session was registered removes it from the session table; deleteClient touches nothing but the session table")
 	c.NotDec = append(c.NotDec, "the product state machine over several sessions in every order: what is decided is every transition function for every input class, plus the absence of side effects in the rejecting cells")
 	ruleDispatchTable(c)
@@ -30,6 +31,7 @@ func rulesC09(c *Ctx) {
 	ruleStoreClientElectionID(c)
 	ruleDoModifyPrecondition(c)
 	ruleSessionFootprint(c)
+	ruleFatalEndsSession(c)
 	ruleElectionWriters(c) // a session leaving (or any handler but runElection) never alters the election state
 }
 
@@ -134,6 +136,7 @@ func ruleDispatchTable(c *Ctx) {
 	aCP := eqAtom("call:checkParams#1.1", "nil")
 	aUP := eqAtom("call:updateParams#1", "nil")
 	aRE := eqAtom("call:runElection#1.1", "nil")
+	aDM := "b:call:doModify#1"
 	flag := "first-message-flag=true"
 	// a sent local is named by what it holds on the path (the handler's own response / error)
 	var pe *pathEnum
@@ -155,7 +158,7 @@ func ruleDispatchTable(c *Ctx) {
 		Rule: "TABLE-DISPATCH", Fn: fi, Body: loop.Body.List, Construct: "Modify receive loop: dispatch and termination",
 		Outcome: outcome, PE: &pe,
 		Events: sendEventsRole(fi, calls, role),
-		Atoms:  map[string]int{aEOF: 2, aErr: 2, aIn: 2, aP: 2, aE: 2, aO: 2, aCP: 2, aUP: 2, aRE: 2},
+		Atoms:  map[string]int{aEOF: 2, aErr: 2, aIn: 2, aP: 2, aE: 2, aO: 2, aCP: 2, aUP: 2, aRE: 2, aDM: 2},
 		Expected: func(v *Valuation) (string, bool) {
 			ret := func(evs ...string) string { return "ret() effects[" + strings.Join(evs, ",") + "]" }
 			loops := func(evs ...string) string { return "end:fall effects[" + strings.Join(evs, ",") + "]" }
@@ -185,6 +188,11 @@ func ruleDispatchTable(c *Ctx) {
 				}
 				return loops("runElection(session,msg.ElectionId)", flag, "resultChan←call:runElection#1.0"), true
 			case hasO:
+				// doModify reports false once it has written a fatal error: the RPC is being torn
+				// down and nothing further from this session may be handled
+				if !v.B(aDM) {
+					return ret("doModify(session,msg.Operation,resultChan,errCh)"), true
+				}
 				return loops("doModify(session,msg.Operation,resultChan,errCh)", flag), true
 			}
 			return ret("errCh←err(Unimplemented)"), true
@@ -541,9 +549,9 @@ func ruleDoModifyPrecondition(c *Ctx) {
 		Expected: func(v *Valuation) (string, bool) {
 			switch {
 			case !v.B(aOK):
-				return "ret() effects[errCh←err(Internal)]", true
+				return "ret(false) effects[errCh←err(Internal)]", true
 			case v.B(aPN) || !v.B(aEx) || !v.B(aPe):
-				return "ret() effects[errCh←err(Unimplemented/ModifyRPCErrorDetails_UNSUPPORTED_PARAMS)]", true
+				return "ret(false) effects[errCh←err(Unimplemented/ModifyRPCErrorDetails_UNSUPPORTED_PARAMS)]", true
 			}
 			return "end:fall effects[touch:getElection]", true
 		},
@@ -647,4 +655,100 @@ func ruleSessionFootprint(c *Ctx) {
 	})
 	c.Sites++
 	c.check(okDel && len(other) == 0, rule, dc.Name, "removes exactly the session's entry, touches nothing else", c.P.pos(dc.Decl.Pos()), "delete(cs, id) under csMu", fmt.Sprintf("deleteClient does more/less than removing the session's entry (delete ok=%v, other calls %v)", okDel, other))
+}
+
+// R9.9 a fatal error ends the session's processing at once. doModify reports a
+// fatal error by writing it to the error channel; the RPC handler returns on the
+// first error it reads. Whatever the session's goroutine does after that write —
+// the remaining operations of the request, the next message (an election
+// announcement, say) — happens on behalf of a session that has already been
+// failed. So: on every path through doModify a write to the error channel is the
+// last effect and is followed by `return false`; every path without one returns
+// true (the dispatch table requires the receive loop to end on false).
+func ruleFatalEndsSession(c *Ctx) {
+	const rule = "FATAL-ENDS-SESSION"
+	fi := c.need("server", "Server", "doModify")
+	if fi == nil {
+		return
+	}
+	info := fi.Pkg.TypesInfo
+	var errCh, resCh types.Object
+	for _, o := range paramObjs(info, fi.Decl) {
+		if o == nil {
+			continue
+		}
+		if ch, ok := o.Type().Underlying().(*types.Chan); ok {
+			if types.Identical(ch.Elem(), types.Universe.Lookup("error").Type()) {
+				errCh = o
+			} else {
+				resCh = o
+			}
+		}
+	}
+	if errCh == nil || resCh == nil {
+		c.undecided(rule, fi.Name, "channels", c.P.pos(fi.Decl.Pos()), "doModify has no (response channel, error channel) parameters")
+		return
+	}
+	ev := func(n ast.Node) []Event {
+		var out []Event
+		inspectNoFuncLit(n, func(m ast.Node) bool {
+			switch x := m.(type) {
+			case *ast.SendStmt:
+				switch objOfIdent(info, x.Chan) {
+				case errCh:
+					out = append(out, Event{Kind: "fatal", Node: x})
+				case resCh:
+					out = append(out, Event{Kind: "reply", Node: x})
+				}
+			case *ast.CallExpr:
+				if f, ok := calleeObj(info, x).(*types.Func); ok && f.Name() == "modifyEntry" {
+					out = append(out, Event{Kind: "process", Node: x})
+				}
+			}
+			return true
+		})
+		return out
+	}
+	paths, pe := enumFunc(fi, ev, nil)
+	c.Sites += len(paths)
+	if pe.overflow || len(pe.unsup) > 0 || len(paths) == 0 {
+		c.undecided(rule, fi.Name, "body", c.P.pos(fi.Decl.Pos()), "path enumeration incomplete")
+		return
+	}
+	sig := fi.Obj.Type().(*types.Signature)
+	if sig.Results().Len() != 1 || !types.Identical(sig.Results().At(0).Type(), types.Typ[types.Bool]) {
+		c.fail(rule, fi.Name, "a fatal error is the last effect and is reported to the caller", c.P.pos(fi.Decl.Pos()),
+			"doModify writes fatal errors to the error channel but does not tell its caller: after an operation that ends the RPC (no election id, say) the remaining operations of the request are still applied to the RIB, unanswered, and the receive loop goes on to handle the session's next message — an election announcement from the failed session still changes the primary")
+		return
+	}
+	bad, nFatal := "", 0
+	for _, p := range paths {
+		if p.End == "panic" {
+			continue
+		}
+		fatalAt := -1
+		for i, e := range p.Events {
+			if e.Kind == "fatal" && fatalAt < 0 {
+				fatalAt = i
+			}
+		}
+		out := defaultOutcome(info, fi.Decl, Path{End: p.End, EndNode: p.EndNode})
+		switch {
+		case fatalAt >= 0:
+			nFatal++
+			if fatalAt != len(p.Events)-1 {
+				bad = "after the fatal error was written the path goes on to " + p.Events[fatalAt+1].Kind + ": " + p.describe(c.P)
+			} else if out != "ret(false)" {
+				bad = "a path that wrote a fatal error ends with " + out + ", want ret(false): " + p.describe(c.P)
+			}
+		case out != "ret(true)":
+			bad = "a path without a fatal error ends with " + out + ", want ret(true) (the receive loop would stop serving a healthy session): " + p.describe(c.P)
+		}
+	}
+	if nFatal < 3 {
+		c.vanished(rule, fi.Name, "fatal paths", fmt.Sprintf("only %d paths write to the error channel, confirmed floor is 3", nFatal))
+		return
+	}
+	c.check(bad == "", rule, fi.Name, "a fatal error is the last effect and is reported to the caller", c.P.pos(fi.Decl.Pos()),
+		fmt.Sprintf("%d paths, %d of them fatal: errCh←… is followed by return false at once; all others return true", len(paths), nFatal), bad)
 }
